@@ -512,3 +512,86 @@ func VerifH_C02_multi_reference() {
 	res := verifExecute(ew, run, t, in)
 	verifCheck(t, run, res, verifNorm(in), vCheckOpts{})
 }
+
+// C07: an evaluation failure that happens AFTER the workflow output was already produced (a second
+// output, or a step input, that becomes ready later) still must not crash.
+func VerifH_C07_failure_after_output() {
+	bad := vx("steps", "c", "outputs", "success", "v")
+	bad.fail = true
+	bad2 := vx("steps", "c", "outputs", "success", "v")
+	bad2.fail = true
+	t := tWorkflow{
+		steps: []tStep{
+			{id: "a", fields: map[string]any{"input": verifStepInput(vx("input"))}, outcome: map[string]int{"deploy": 0, "start": 0, "result": 0}},
+			{id: "c", fields: map[string]any{"input": verifStepInput(vx("input"))}, outcome: map[string]int{"deploy": 0, "start": 0}},
+			{id: "d", fields: map[string]any{"input": verifStepInput(bad2)}, outcome: map[string]int{"deploy": 0, "start": 0, "result": 0}},
+		},
+		outputs: map[string]any{
+			"success": map[any]any{"r": vx("steps", "a", "outputs", "success", "v")},
+			"other":   map[any]any{"x": bad},
+		},
+	}
+	ew, run := verifPrepare(t)
+	in := verifrt.NondetVal("input")
+	res := verifExecute(ew, run, t, in)
+	verifrt.Assert((res.err == nil) != (res.id == ""), "Execute returns either an output or an error, never both or neither")
+	if res.err == nil {
+		verifrt.Reach("output-first")
+	}
+	verifrt.Settle()
+	if run.produced("c", "outputs", "success") && run.produced("a", "outputs", "success") {
+		verifrt.Reach("failure-after-output")
+	}
+	verifrt.Assert(verifrt.LiveGoroutines() == 0, "no goroutine started for the run survives its return")
+}
+
+// C03: three declared outputs; the first has two dependencies that settle at different moments, the
+// second fails in between, the third becomes producible last and must be the one returned.
+func VerifH_C03_three_outputs() {
+	sure := map[string]int{"deploy": 0, "start": 0, "result": 0}
+	t := tWorkflow{
+		steps: []tStep{
+			{id: "p", fields: map[string]any{"input": verifStepInput(vx("input"))}, outcome: map[string]int{"start": 0, "result": 0}},
+			{id: "q", fields: map[string]any{"input": verifStepInput(vx("input"))}, outcome: map[string]int{"start": 0, "result": 0}},
+			{id: "r", fields: map[string]any{"input": verifStepInput(vx("input"))}, outcome: map[string]int{"start": 0, "result": 0}},
+			{id: "s", fields: map[string]any{"input": verifStepInput(vx("input")), "wait_for": vx("steps", "r", "enabling")}, outcome: sure},
+		},
+		outputs: map[string]any{
+			"all-ok":    map[any]any{"p": vx("steps", "p", "outputs", "success", "v"), "r": vx("steps", "r", "outputs", "success", "v")},
+			"second-ok": map[any]any{"q": vx("steps", "q", "outputs", "success", "v")},
+			"fallback":  map[any]any{"s": vx("steps", "s", "outputs", "success", "v")},
+		},
+	}
+	ew, run := verifPrepare(t)
+	in := verifrt.NondetVal("input")
+	res := verifExecute(ew, run, t, in)
+	verifCheck(t, run, res, verifNorm(in), vCheckOpts{})
+	if res.err == nil && res.id == "fallback" {
+		verifrt.Reach("fallback")
+	}
+}
+
+// C01: one producer feeding N consumers whose input expressions all fail at run time (they become
+// ready through the same event): the run ends with an error, whatever N.
+func VerifH_C01_fan_out_eval_errors() {
+	n := verifrt.Param("N", 3)
+	t := tWorkflow{outputs: map[string]any{}}
+	t.steps = append(t.steps, tStep{id: "src", fields: map[string]any{"input": verifStepInput(vx("input"))}, outcome: map[string]int{"deploy": 0, "start": 0, "result": 0}})
+	out := map[any]any{}
+	for i := 0; i < n; i++ {
+		id := "c" + string(rune('a'+i/26)) + string(rune('a'+i%26))
+		bad := vx("steps", "src", "outputs", "success", "v")
+		bad.fail = true
+		t.steps = append(t.steps, tStep{id: id, fields: map[string]any{"input": verifStepInput(bad)}, outcome: map[string]int{"deploy": 0, "start": 0, "result": 0}})
+		out[id] = vx("steps", id, "outputs", "success", "v")
+	}
+	t.outputs["success"] = out
+	ew, run := verifPrepare(t)
+	in := verifrt.NondetVal("input")
+	res := verifExecute(ew, run, t, in)
+	verifrt.Assert(!res.stuck, "Execute returns once all steps have finished, failed or been closed")
+	verifrt.Assert(res.err != nil && res.id == "", "failing run-time evaluations end the run with an error")
+	verifrt.Reach("error")
+	verifrt.Settle()
+	verifrt.Assert(verifrt.LiveGoroutines() == 0, "no goroutine started for the run survives its return")
+}
